@@ -40,6 +40,7 @@ var alt = map[string]func() altInst{
 		a := trend.NewMacd[float64]()
 		return altInst{func(c Config) {
 			a.Ema1.Period, a.Ema2.Period, a.Ema3.Period = c.P[0], c.P[1], c.P[2]
+			a.Ema1.Smoothing, a.Ema2.Smoothing, a.Ema3.Smoothing = c.Sm(0), c.Sm(1), c.Sm(2)
 		}, func(in []C) []C { return o2(a.Compute(in[0])) }, a.IdlePeriod}
 	},
 	"Mls": func() altInst {
